@@ -133,6 +133,19 @@ func (s *Session) Update(msg *message.ConnectMessage) error {
 		return err
 	}
 
+	// The will belongs to the connection, not to the session: rebuild it from the
+	// new CONNECT (or drop it), otherwise a resumed session publishes a stale will
+	// or has none at all.
+	if s.Cmsg.WillFlag() {
+		s.Will = message.NewPublishMessage()
+		s.Will.SetQoS(s.Cmsg.WillQos())
+		s.Will.SetTopic(s.Cmsg.WillTopic())
+		s.Will.SetPayload(s.Cmsg.WillMessage())
+		s.Will.SetRetain(s.Cmsg.WillRetain())
+	} else {
+		s.Will = nil
+	}
+
 	return nil
 }
 
